@@ -164,15 +164,14 @@ impl<T: Clone + TTOverwriteable> TranspositionTable<T> {
         ensures final(self).wf(), final(self).all_empty(), final(self).data@.len() == old(self).data@.len(),
             final(self).generation == 0, final(self).occupied == 0, final(self).size == old(self).size,
 {
-        self.generation = 0;
-
-        // PERF: Walking the whole table is slow for large hash sizes, and GUIs tend to send
-        // several ucinewgame in a row. There's nothing to clear if the table is already empty.
-        if self.occupancy() == 0 {
-            return;
+        for i in 0..self.data.len() 
+            invariant self.data@.len() == old(self).data@.len(), self.size == old(self).size,
+                forall|j: int| 0 <= j < i ==> self.data@[j].is_none(),
+{
+            self.data[i] = None;
         }
 
-        self.data.fill(None);
+        self.generation = 0;
         self.occupied = 0;
             proof { lemma_count_none(self.data@); }
 }
